@@ -287,6 +287,7 @@ var C03OpenFindings = []C03Finding{
 	{"C03-with-order-by-alias", C03WithOrderByAlias},
 	{"C03-windowed-with-leaves-constraints-pending", C03WindowedWithLeavesConstraintsPending},
 	{"C03-return-order-by-reads-alias", C03ReturnOrderByReadsAlias},
+	{"C03-exact-range-inline-map-reads-variable", C03ExactRangeInlineMapReadsVariable},
 }
 
 // C03ExcludedBy returns the id of the first open finding whose shape the query has ("" = none).
@@ -912,18 +913,67 @@ func C03ExpansionConstraintSpansBindings(q *cypher.RegularQuery) bool {
 }
 
 // C03UnwindVariableInLaterMatch: the unwound value is a FROM item (`unnest(…) as i0`) of the final select
-// only, yet a MATCH after the UNWIND that reads it in its WHERE places the conjunct inside its own frame, where
-// no such FROM item exists (`column "i0" does not exist`). Shape: an UNWIND followed, in the same query part,
-// by a MATCH whose WHERE mentions the unwind variable.
+// only, yet a MATCH after the UNWIND whose pattern continues from a node bound BEFORE it with a fixed-length step
+// places a conjunct that reads the unwound value (and at most that node) in the join condition of the step's edge,
+// where no such FROM item exists (`join edge e0 on (i0 <> 'abc') and (s0.n0).id = e0.start_id`: column "i0" does
+// not exist). A conjunct that also reads a node the pattern introduces is placed later and is fine; so are
+// patterns that start at a new node and expansions (their seed adds the unnest items). Shape: an UNWIND followed,
+// in the same query part, by a MATCH with a pattern part whose first node restates a variable declared before that
+// MATCH and whose first relationship has a fixed length, and whose WHERE has a conjunct that mentions the unwind
+// variable and no variable that the MATCH itself introduces. (The first version took every MATCH after an UNWIND
+// whose WHERE mentions the variable; it hid shapes that translate correctly.)
 func C03UnwindVariableInLaterMatch(q *cypher.RegularQuery) bool {
 	cs := C03Clauses(q)
 	for i, c := range cs {
 		if c.Unwind == nil || c.Unwind.Variable == nil {
 			continue
 		}
+		unwound := c.Unwind.Variable.Symbol
 		for j := i + 1; j < len(cs) && cs[j].Part == c.Part; j++ {
-			if cs[j].Match != nil && c03VariablesIn(c03WhereOf(cs[j].Match))[c.Unwind.Variable.Symbol] {
-				return true
+			m := cs[j].Match
+			if m == nil || m.Where == nil || !c03VariablesIn(m.Where)[unwound] {
+				continue
+			}
+			declaredBefore := map[string]bool{}
+			for _, earlier := range cs[:j] {
+				for v := range c03Declared(earlier) {
+					declaredBefore[v] = true
+				}
+			}
+			continuesFromBound := false
+			for _, part := range m.Pattern {
+				if part == nil || len(part.PatternElements) < 3 {
+					continue
+				}
+				first, isNode := part.PatternElements[0].AsNodePattern()
+				rel, isRel := part.PatternElements[1].AsRelationshipPattern()
+				if isNode && isRel && first != nil && rel != nil && first.Variable != nil && declaredBefore[first.Variable.Symbol] && rel.Range == nil {
+					continuesFromBound = true
+				}
+			}
+			if !continuesFromBound {
+				continue
+			}
+			introduced := map[string]bool{}
+			for v := range c03PatternVariables(m.Pattern) {
+				if !declaredBefore[v] {
+					introduced[v] = true
+				}
+			}
+			for _, conjunct := range c03Conjuncts(m.Where) {
+				vars := c03VariablesIn(conjunct)
+				if !vars[unwound] {
+					continue
+				}
+				readsIntroduced := false
+				for v := range vars {
+					if introduced[v] {
+						readsIntroduced = true
+					}
+				}
+				if !readsIntroduced {
+					return true
+				}
 			}
 		}
 	}
@@ -1658,6 +1708,26 @@ func C03WithOrderByAlias(q *cypher.RegularQuery) bool {
 		}
 	}
 	return false
+}
+
+// C03ExactRangeInlineMapReadsVariable: the exact-range lowering turns `-[:K*2..2 {key: value}]->` into fixed steps and
+// builds the property constraint of every step from the SAME translated value expression
+// (translate/relationship.go translateRelationshipPattern, property.go buildPatternPropertyConstraints). When the
+// value reads a variable, the frame rewriter resolves it in place for the first step (`(s0.n1).properties`); the
+// second step's constraint shares the node and keeps the first step's frame, which is not a FROM item of the second
+// step's select (missing FROM-clause entry for table "s0"). Shape: a relationship with an exact range >= 2 and an
+// inline property map with a value that mentions a variable.
+func C03ExactRangeInlineMapReadsVariable(q *cypher.RegularQuery) bool {
+	return c03Contains(q, func(n any) bool {
+		r, ok := n.(*cypher.RelationshipPattern)
+		if !ok || r == nil || r.Range == nil || r.Range.StartIndex == nil || r.Range.EndIndex == nil || r.Properties == nil {
+			return false
+		}
+		if *r.Range.StartIndex != *r.Range.EndIndex || *r.Range.StartIndex < 2 {
+			return false
+		}
+		return len(c03VariablesIn(r.Properties)) > 0
+	})
 }
 
 // C03ReturnOrderByReadsAlias: the RETURN side of C03WithOrderByAlias. A bare RETURN alias as sort key is replaced by
